@@ -375,3 +375,46 @@ pub fn c04_float_accessors_shape() {
     }
     kani::cover!(b0 == Some(0xfb) && len == 9);
 }
+
+/// An indefinite-length array cut at an element boundary (break missing) is a strict prefix:
+/// `[u8; 2]` and `array_iter_with` report end-of-input, never success.
+#[kani::proof]
+#[kani::unwind(6)]
+#[kani::stub(minicbor::decode::Decoder::skip, crate::util::skip_r3_small)]
+pub fn c04_td_indefinite_array_truncated_at_boundary() {
+    let a: [u8; 2] = kani::any();
+    let buf = [0x9f, 0x18, a[0], 0x18, a[1]];
+    let mut d = Decoder::new(&buf[..]);
+    let r = d.decode::<[u8; 2]>();
+    assert!(r.is_err(), "indefinite array without its break decoded successfully");
+    if let Err(e) = r { assert!(e.is_end_of_input(), "missing break: not an end-of-input error") }
+    let lone = [0x9fu8];
+    let mut d = Decoder::new(&lone[..]);
+    let r = d.decode::<[u8; 0]>();
+    assert!(matches!(&r, Err(e) if e.is_end_of_input()), "a lone 9f decoded as an empty array");
+    let mut ctx = ();
+    let mut d = Decoder::new(&buf[..]);
+    let mut n = 0;
+    let mut last_err = false;
+    for x in d.array_iter_with::<(), u8>(&mut ctx).unwrap() { n += 1; last_err = x.is_err(); if last_err || n > 3 { break } }
+    assert!(n == 3 && last_err, "array_iter_with ended silently at the end of the input");
+}
+
+/// `map_iter_with` (the iterator behind the map collections) on an indefinite map: entries in
+/// order and the break CONSUMED, so that an enclosing container continues behind it.
+#[kani::proof]
+#[kani::unwind(6)]
+pub fn c04_map_iter_with_indefinite_consumes_break() {
+    let a: [u8; 2] = kani::any();
+    let buf = [0xbf, 0x18, a[0], 0x18, a[1], 0xff, 0x05];
+    let mut ctx = ();
+    let mut d = Decoder::new(&buf[..]);
+    let mut n = 0;
+    for x in d.map_iter_with::<(), u8, u8>(&mut ctx).unwrap() { assert!(matches!(x, Ok((k, v)) if k == a[0] && v == a[1])); n += 1; if n > 2 { break } }
+    assert!(n == 1);
+    assert!(d.position() == 6, "break of the indefinite map not consumed");
+    let mut d2 = Decoder::new(&buf[..]);
+    let mut m = 0;
+    for x in d2.map_iter::<u8, u8>().unwrap() { assert!(x.is_ok()); m += 1; if m > 2 { break } }
+    assert!(m == 1 && d2.position() == 6);
+}
